@@ -410,7 +410,7 @@ func executeC11(scn *Scenario) *RunResult {
 				sim.yield0()
 				u := &units[ui]
 				if soloCapped(refs[u.key()].out) {
-					sim.probes["unit_excluded_solo_cap"]++
+					sim.probe("unit_excluded_solo_cap")
 					continue
 				}
 				cap := unitCap(refs[u.key()].steps)
@@ -423,7 +423,7 @@ func executeC11(scn *Scenario) *RunResult {
 					} else {
 						live = append(live, liveIt{ui, it})
 						if len(live) >= 2 {
-							sim.probes["two_live_iters_one_task"]++
+							sim.probe("two_live_iters_one_task")
 						}
 					}
 					continue
